@@ -195,9 +195,10 @@ impl Vm {
   pub(super) fn queue_blocked_fiber(&mut self, mut waiter: Ref<ChannelWaiter>) {
     match waiter.get_waiter_mut::<Ref<Fiber>>() {
       Some(fiber) => {
-        // several waiters may name one fiber. The running fiber is not
-        // resumed and a fiber is put into the queue once
-        if *fiber == self.fiber || self.fiber_queue.contains(fiber) {
+        // several routes may name one fiber. The running fiber is not
+        // resumed and a fiber is put into the queue once. Only a pending
+        // fiber can be in the queue already
+        if *fiber == self.fiber || (fiber.is_pending() && self.fiber_queue.contains(fiber)) {
           return;
         }
 
